@@ -87,6 +87,7 @@ class LocationAction(object):
         self.__stats = TracepointExecutionStats()
         self.__action_type = action_type
         self.__location: Optional['Location'] = None
+        self.__tracepoint: Optional[TracePointConfig] = None
         self.__lock = threading.Lock()
 
     @property
@@ -166,9 +167,22 @@ class LocationAction(object):
         """Get the location config."""
         return self.__location
 
+    def for_tracepoint(self, tracepoint: TracePointConfig) -> 'LocationAction':
+        """
+        Remember the tracepoint this action was created for.
+
+        :param tracepoint: the tracepoint as it was configured (id, path, line, arguments, watches)
+        """
+        self.__tracepoint = tracepoint
+        return self
+
     @property
     def tracepoint(self) -> TracePointConfig:
         """Get the tracepoint config for this trigger."""
+        if self.__tracepoint is not None:
+            # the tracepoint as it was configured, not what can be reconstructed from the config of this action
+            # (which has defaults filled in, and lacks what other actions or the location use)
+            return self.__tracepoint
         args = dict(self.__config)
         if WATCHES in args:
             del args[WATCHES]
@@ -706,7 +720,8 @@ def build_trigger(tp_id: str, path: str, line_no: int, args: Dict[str, str], wat
     metric_action = build_metric_action(tp_id, args, metrics)
     span_action = build_span_action(tp_id, args)
 
-    actions = [action for action in [snap_action, log_action, metric_action, span_action] if
-               action is not None]
+    tracepoint = TracePointConfig(tp_id, path, line_no, dict(args), list(watches), list(metrics or []))
+    actions = [action.for_tracepoint(tracepoint) for action in [snap_action, log_action, metric_action, span_action]
+               if action is not None]
 
     return Trigger(location, actions)
